@@ -1,0 +1,37 @@
+// SPDX-License-Identifier: Apache-2.0
+//! `WarpState` seams: construction of arbitrary multi-instance states, crate-private diff /
+//! apply / state-root entry points (properties C01, C04, C06).
+use crate::graph::GraphStore;
+use crate::ident::{Hash, NodeKey, WarpId};
+use crate::tick_patch::{TickPatchError, WarpOp};
+use crate::warp_state::{WarpInstance, WarpState};
+
+/// `tick_patch::diff_state` (crate-private).
+pub fn diff_state(before: &WarpState, after: &WarpState) -> Vec<WarpOp> {
+    crate::tick_patch::diff_state(before, after)
+}
+
+/// `tick_patch::apply_ops_to_state` (crate-private): op list applied as given, no re-sorting.
+pub fn apply_ops(state: &mut WarpState, ops: &[WarpOp]) -> Result<(), TickPatchError> {
+    crate::tick_patch::apply_ops_to_state(state, ops)
+}
+
+/// `WarpState::upsert_instance` (crate-private).
+pub fn upsert_instance(state: &mut WarpState, instance: WarpInstance, store: GraphStore) {
+    state.upsert_instance(instance, store);
+}
+
+/// Instances in map order.
+pub fn instances(state: &WarpState) -> Vec<WarpInstance> {
+    state.iter_instances().map(|(_, i)| i.clone()).collect()
+}
+
+/// Stores in map order.
+pub fn stores(state: &WarpState) -> Vec<(WarpId, &GraphStore)> {
+    state.iter_stores().map(|(w, s)| (*w, s)).collect()
+}
+
+/// `snapshot::compute_state_root` (crate-private).
+pub fn state_root(state: &WarpState, root: &NodeKey) -> Hash {
+    crate::snapshot::compute_state_root(state, root)
+}
